@@ -173,7 +173,7 @@ def fresh_ids(rng: Rng, n: int = 5) -> List[str]:
 
 
 # ---------------------------------------------------------------------------------------------- seeding path (set_random_seed / reset)
-SEED_ARGS = [None, -1, -2, -7, 0, 1, 2, 7, 65535, 2 ** 31, 2 ** 32 - 1]
+SEED_ARGS = [None, -1, -2, -7, 0, 1, 2, 7, 65535, 2 ** 31, 2 ** 32 - 1, 2 ** 32, 2 ** 40 + 3]
 
 
 def _gen_states():
